@@ -87,6 +87,10 @@ def indexOps : List SExp → Option String
   | [.atom "index.locp", ix, k, off, part] => do
       let r ← index? ix; let k ← lkey? k; let off ← optInt? off; let part ← bool? part
       pure (answer (r.bind fun ix => (ix.locToIlocP k (off.map Int.toNat) part).map ofIKey))
+  | [.atom "index.cloc", ix, k] => do
+      -- the route Series.loc / Frame.loc / getitem take: `Index._loc_to_iloc(key)` (no offset, no partial selection)
+      let r ← index? ix; let k ← lkey? k
+      pure (answer (r.bind fun ix => (ix.locToIlocP k none false).map ofIKey))
   | [.atom "index.contains", ix, a] => do
       let r ← index? ix; let a ← lab? a
       pure (answer (r.map fun ix => ofBool (ix.contains a)))
